@@ -17,6 +17,7 @@ RIndexFrom(v, x, k) == IF k > Len(v) THEN 0 ELSE IF FEq(v[k], x) THEN k ELSE RIn
 RMin(v) == RMinFrom(v, 1)            \* smallest element of a non-empty vector
 RMax(v) == RMaxFrom(v, 1)            \* largest element of a non-empty vector
 RIndexOf(v, x) == RIndexFrom(v, x, 1) \* first k with v[k] = x (as reals), 0 if none
+RIndicesOf(v, x) == {k \in 1..Len(v) : FEq(v[k], x)}   \* every k with v[k] = x
 \* v[(k-1)*stride + j] for k = 1..count  (column j of a row-major count x stride table)
 RColumn(v, j, stride, count) == [k \in 1..count |-> v[(k - 1) * stride + j]]
 =============================================================================
